@@ -46,10 +46,10 @@ type Tree struct {
 	Leaf string
 }
 
-func leaf(s string) *Tree      { return &Tree{Leaf: s} }
-func and(a, b *Tree) *Tree     { return &Tree{Op: 'A', L: a, R: b} }
-func or(a, b *Tree) *Tree      { return &Tree{Op: 'O', L: a, R: b} }
-func (t *Tree) isLeaf() bool   { return t.Op == 0 }
+func leaf(s string) *Tree    { return &Tree{Leaf: s} }
+func and(a, b *Tree) *Tree   { return &Tree{Op: 'A', L: a, R: b} }
+func or(a, b *Tree) *Tree    { return &Tree{Op: 'O', L: a, R: b} }
+func (t *Tree) isLeaf() bool { return t.Op == 0 }
 func (t *Tree) leaves() []string {
 	if t.isLeaf() {
 		return []string{t.Leaf}
@@ -145,9 +145,10 @@ func randTree(r *SM64, n int) *Tree {
 }
 
 // render styles:
-//  0 minimal parentheses (the parser is right-recursive: a right operand of the same operator needs none)
-//  1 fully parenthesised
-//  2 minimal + redundant parentheses around leaves / the whole, extra spaces (seeded)
+//
+//	0 minimal parentheses (the parser is right-recursive: a right operand of the same operator needs none)
+//	1 fully parenthesised
+//	2 minimal + redundant parentheses around leaves / the whole, extra spaces (seeded)
 func (t *Tree) render(style int, r *SM64) string {
 	switch style {
 	case 1:
@@ -179,8 +180,9 @@ func opName(o byte) string {
 
 // ctx: 0 top / inside parens; 1 left operand of OR / right operand of OR (no parens needed for AND or OR-right);
 // precise rule: tree parses back to itself iff
-//   AND node: left child must be atom (leaf or parenthesised) ; right child may be leaf or AND (right-nested), OR needs parens
-//   OR node:  left child may be leaf or AND, OR needs parens ; right child anything
+//
+//	AND node: left child must be atom (leaf or parenthesised) ; right child may be leaf or AND (right-nested), OR needs parens
+//	OR node:  left child may be leaf or AND, OR needs parens ; right child anything
 func (t *Tree) renderMin(_ int) string {
 	if t.isLeaf() {
 		return t.Leaf
